@@ -15,7 +15,7 @@ import (
 func spec(r *eng.Run) eng.SeqSpec {
 	cfgs := []string{"miss=none,auto=1", "miss=L1,auto=1"}
 	if r.Thorough() {
-		cfgs = append(cfgs, "miss=LM,auto=1", "miss=none,auto=0")
+		cfgs = append(cfgs, "miss=none,auto=0", "miss=LM,auto=1")
 	}
 	return eng.SeqSpec{Configs: cfgs, New: func(c string) eng.Sys { return newSys(r, c) }, Depth: eng.Pick(r, 3, 6)}
 }
